@@ -51,6 +51,8 @@ def run(modname, tier, jobs=None):
     seed = int(os.environ.get("VERIF_SEED", "0"))
     t0 = time.time()
     shapes = mod.shapes(tier, seed)
+    if hasattr(mod, "cost"):
+        shapes = sorted(shapes, key=lambda sh: -mod.cost(sh))
     jobs = jobs or int(os.environ.get("VERIF_JOBS", "0")) or min(16, os.cpu_count() or 4)
     results = []
     if jobs == 1 or len(shapes) < 4:
@@ -59,7 +61,7 @@ def run(modname, tier, jobs=None):
     else:
         ctx = mp.get_context("fork")
         with ctx.Pool(jobs, maxtasksperchild=200) as pool:
-            chunk = max(1, min(16, len(shapes) // (jobs * 8)))
+            chunk = 1 if hasattr(mod, "cost") else max(1, min(16, len(shapes) // (jobs * 8)))
             for r in pool.imap_unordered(_worker, [(modname, s, tier) for s in shapes], chunksize=chunk):
                 results.append(r)
     results.sort(key=lambda r: json.dumps(r.get("shape"), default=str))
@@ -170,6 +172,9 @@ def finish(mod, tier, seed, shapes, results, wall):
         json.dump(ev, f, indent=1, default=str)
     for ln in lines:
         print(ln)
+    if os.environ.get("VERIF_PROFILE"):
+        for r in sorted(results, key=lambda r: -r.get("wall_s", 0))[:int(os.environ["VERIF_PROFILE"])]:
+            print("  slow:", r.get("wall_s"), r.get("paths"), r.get("status"), json.dumps(r.get("shape"), default=str)[:200])
     print(f"[{pid}/{tier}] shapes={len(shapes)} buckets={buckets} paths={tot['paths']} obligations={tot['obligations']} "
           f"discharged={tot['discharged']} queries={tot['queries']} solver_s={tot['solver_s']:.1f} wall={wall:.1f}s")
     if harness_errors:
